@@ -59,6 +59,9 @@ class Driver:
         self.incarnation += 1
         opts = dict(paused_start=False, run_mode="live")
         opts.update(self.run_opts)
+        if self.incarnation > 1:
+            # a restart is a plain `cylc play`: a --stopcp given again would (legitimately) override the stored one
+            opts.pop("stopcp", None)
         schd = Scheduler(self.name, RunOptions(**opts))
         schd.INTERVAL_MAIN_LOOP = 0
         schd.INTERVAL_MAIN_LOOP_QUICK = 0
@@ -486,6 +489,7 @@ async def run_plan(drv: Driver, plan: dict):
     iters = 0
     quiet = 0
     stop_requested = False
+    reauto = False
     reacted = set()
     try:
         try:
@@ -536,6 +540,17 @@ async def run_plan(drv: Driver, plan: dict):
                         drv.net = []          # messages in flight while the scheduler is down are lost
                         await drv.boot()
                         await drv.settle_after_restart()
+                        quiet = 0
+                        continue
+                    if reason == "AUTOMATIC" and plan.get("restart_after_auto") and not reauto:
+                        # the workflow shut itself down (e.g. at its stop point); the operator starts it again
+                        reauto = True
+                        drv.net = []
+                        await drv.boot()
+                        r2 = await drv.settle_after_restart()
+                        if r2 is not None:
+                            res.end = "auto" if r2 == "AUTOMATIC" else f"stopped:{r2}"
+                            break
                         quiet = 0
                         continue
                     res.end = "auto" if reason == "AUTOMATIC" else f"stopped:{reason}"
